@@ -243,12 +243,47 @@ class Interp(Engine):
         v = self.eval(n.value) if n.value is not None else None
         raise B.StepYield(v, ys[id(n)])
 
+    def names_bound_in_ignored(self, node):
+        """The VALUE of a log / message argument is an ignored effect, but a Name in it that is bound nowhere on this
+        path still raises NameError when the statement runs (RemoteStack.removeRemote formatted `uid`, Tasker.makeRunner
+        `CommandNames`, both on error paths): every Name load inside an ignored call is checked for a binding - local
+        on this path, module global, builtin - without being evaluated."""
+        if self.spec:
+            return
+        import builtins as _pyb
+        inner = set()
+        for x in ast.walk(node):
+            if isinstance(x, ast.comprehension):
+                for t in ast.walk(x.target):
+                    if isinstance(t, ast.Name):
+                        inner.add(t.id)
+            elif isinstance(x, ast.Lambda):
+                for a_ in x.args.args + x.args.kwonlyargs:
+                    inner.add(a_.arg)
+            elif isinstance(x, ast.NamedExpr) and isinstance(x.target, ast.Name):
+                inner.add(x.target.id)
+        f = self.frame
+        g = None
+        for x in ast.walk(node):
+            if not (isinstance(x, ast.Name) and isinstance(x.ctx, ast.Load)) or x.id in inner:
+                continue
+            if x.id in f.env:
+                if f.env[x.id] is _UNBOUND:
+                    self.unbound(x.id)
+                continue
+            if g is None:
+                g = self.repo.module_globals(f.rel)
+            if x.id in g or x.id in _BUILTIN_NAMES or hasattr(_pyb, x.id) or x.id in IGNORED_CALL_ROOTS:
+                continue
+            self.unbound(x.id)
+
     def e_Call(self, n):
         # ignored effects: console.*(...) and the evaluation of their arguments
         root = n.func
         while isinstance(root, ast.Attribute):
             root = root.value
         if isinstance(root, ast.Name) and root.id in IGNORED_CALL_ROOTS and root.id not in self.frame.env:
+            self.names_bound_in_ignored(n)
             return None
         # "literal".format(...) builds a log/exception message: ignored effect (arguments not evaluated)
         if isinstance(n.func, ast.Attribute) and n.func.attr == "format" and \
@@ -259,6 +294,7 @@ class Interp(Engine):
                 r_ = fh_(self, [n.func.value.value] + [self.eval(a_) for a_ in n.args], {})
                 if r_ is not None:
                     return r_
+            self.names_bound_in_ignored(n)
             return Opaque_("format")
         # spec-only special forms
         if isinstance(n.func, ast.Name):
